@@ -13,6 +13,8 @@ Lemmas live in `ClvmProofs/Lemmas/Ref*.lean`; this file only states the property
 -/
 import ClvmProofs.Lemmas.RefOps
 import ClvmProofs.Lemmas.RefLoops
+import ClvmProofs.Lemmas.RefBits
+import ClvmProofs.Lemmas.RefUnknown
 import ClvmProofs.Lemmas.RefPath
 import ClvmProofs.Lemmas.RefMachine
 import ClvmProofs.Lemmas.RefSim
@@ -167,6 +169,19 @@ theorem ref_op_eq_subtract (m : Nat) (a : Val) (c : Ctr) (hw : a.wf = true) (hp 
 theorem ref_op_eq_multiply (m : Nat) (a : Val) (c : Ctr) (hw : a.wf = true) (hp : Proper a) :
     OpAgree m (Interp.opMultiply {} 0 m a c) (Ref.opMultiply a.erase) := opMultiply_agree m a c hw hp
 
+/-- **the unknown-operator rule** (`_partial`: outside the region of finding B).  For every operator
+atom, argument list (nil-terminated), 64-bit budget: `unknown_operator` under default flags and the
+reference's `default_unknown_op` agree — reserved / invalid opcodes, the four cost functions over the
+argument sizes, the multiplier, the `2^32` cap — provided the product `base · (multiplier + 1)`,
+computed the reference's way, is below `2^64`.  In the excluded region the pre-hard-fork `op_unknown`
+multiplies with `wrapping_mul` and can return a small cost where the reference raises "invalid
+operator" (DESIGN §6-B, C09 `unknown_wrap_witness`). -/
+theorem ref_op_eq_unknown_partial (ob : Bytes) (m : Nat) (al : Val) (c : Ctr) (hp : Proper al) (hm : m < 2 ^ 64)
+    (hnw : ∀ cost, unknownBaseCost (unknownCostFunction ob) al.erase = .ok cost →
+      cost * unknownCostMultiplier ob < 2 ^ 64) :
+    OpAgree m (unknownOperator ob al 0 m c) (defaultUnknownOp ob al.erase) :=
+  unknown_agree ob m al c hp hm hnw
+
 /-! ### environment paths -/
 
 /-- **`path_eq`**: for every path atom (any bytes: leading zero bytes, empty, arbitrary length) and
@@ -234,33 +249,34 @@ theorem C01_main_partial (lenient : Bool) (prog env : Tree) (h1 : OneStep prog) 
     (hr : adaptedRun lenient (fuel' + 2) prog env budget = some ro) : SameOutcome mo ro :=
   one_step_agree lenient prog env h1 budget fuel fuel' mo ro hm hr
 
-/-- **`C01_main_core_partial`**: whole programs, every budget, any fuel on either side.  The reference
-runs with all consensus adapters and operand lists read like the Python (`coreAd`); its *domain* is
-restricted by `Adapter.coreFragment` (a run that evaluates a `((X) …)` form or applies opcode 36 is
-outside) and by `Adapter.restrictOps unprovedOp` (so is a run that applies an operator whose
-`ref_op_eq_*` theorem is not proved yet: any operator the
-reference treats as unknown — and the BLS/newer operators, which are outside C01 anyway).
+/-- **`C01_main_core_partial`**: whole programs, every 64-bit budget (`0` = unlimited), any fuel on
+either side.  The reference runs with all consensus adapters and operand lists read like the Python
+(`coreAd`).  Its *domain* is restricted by `Adapter.coreFragment` — a run that evaluates a `((X) …)`
+form or applies opcode 36 is outside — and by `Adapter.restrictCalls exclCall` — so is a call of an
+unknown operator inside the region of finding B (cost product `base · (multiplier + 1) ≥ 2^64`, where
+the pre-hard-fork `op_unknown` wraps); the operators assigned by later consensus changes (29, 30,
+48–61, the 4-byte secp opcodes) are outside C01 as before.
 Whenever both machines terminate they succeed with the same cost and the same tree, or both fail —
 unless the reference left that domain or hit the adapted stack limit (`BadR`), or the model hit an
-allocator or stack limit or an operator it does not implement (`BadM`).  In particular the theorem is
-unconditional on every program whose run only applies `q a i c f r l x = >s sha256 substr strlen concat + - *
-/ divmod > ash lsh logand logior logxor lognot not any all` and environment paths.
+allocator or stack limit or an operator it does not implement (`BadM`).  Every classic operator
+(`q a i c f r l x = >s sha256 substr strlen concat + - * / divmod > ash lsh logand logior logxor lognot
+not any all`), environment paths and operators the reference treats as unknown are inside.
 
 Proof: a simulation between the two op-stack machines (`Lemmas/RefSim.lean`): both are described by
 the same continuation (a list of call frames) in one of two positions; "value produced"
 (`Cons` / `cons`, end of the run), "next operand" (`SwapEval` / `swap; eval`, through `eval_agree`:
 paths by `path_eq`, quotations, operator-call entry with the nil-terminator check) and "apply"
 (`(a P E)`: `apply; eval` against `apply_op`'s immediate `eval_pair`; ordinary operators: the two
-dispatch tables against each other, `dispatch_agree`, where the `ref_op_eq_*` theorems plug in).
+dispatch tables against each other, `dispatch_agree`, where the `ref_op_eq_*` theorems and the
+unknown-operator rule plug in).
 
-What is missing for the full `StatementFor true`: the unknown-operator rule (then
-`unprovedOp` shrinks to the operators outside C01), the `((X) …)` form (needs "operators do not look
-at the terminator of their argument list" for the lenient reading) and softfork guards. -/
-theorem C01_main_core_partial (prog env : Tree) (budget fuel fuel' : Nat)
+What is missing for the full `StatementFor true`: the `((X) …)` form (needs "operators do not look
+at the terminator of their argument list" for the lenient reading) and softfork guards (opcode 36). -/
+theorem C01_main_core_partial (prog env : Tree) (budget fuel fuel' : Nat) (hb : budget < 2 ^ 64)
     (ro : Res) (mo : Except Err (Nat × Val × Ctr))
     (hr : Ref.runWith coreAd fuel' prog env (Adapter.u64Budget budget) = some ro)
     (hm : modelRun fuel prog env budget = some mo) : RunOut ro mo :=
-  core_run_agree prog env budget fuel fuel' ro mo hr hm
+  core_run_agree prog env budget fuel fuel' hb ro mo hr hm
 
 /-- the domain is not empty: `(+ (q . 2) (* 1 (q . 3)))` in the environment `7` stays inside it and
 evaluates to `23` at cost 1840 -/
